@@ -135,7 +135,8 @@ def replay(rep, case):
 def replay_history(rep, prop, c):
     o = _run_history({"hist": c["history"], "inspect": c.get("inspect", False), "translated": prop == "C07", "both_modes": prop == "C15"})
     n = 6
-    tcfg = corpus._cfg("Trace_SurveyObject.cfg", "SPECIFICATION TSpec\n" + SO_CFG % n + "CONSTRAINT Accepted\nCHECK_DEADLOCK FALSE\n")
+    so_cfg = SO_CFG.replace("WithRefs = FALSE", "WithRefs = TRUE") if prop == "C03" else SO_CFG
+    tcfg = corpus._cfg("Trace_SurveyObject.cfg", "SPECIFICATION TSpec\n" + so_cfg % n + "CONSTRAINT Accepted\nCHECK_DEADLOCK FALSE\n")
     a, info = tlc.validate_traces("Trace_SurveyObject", tcfg, [o["trace"]], shards=1, env={"PROP": prop}, tag="replay")
     rep.case({"history": c["history"]})
     if 0 not in a:
@@ -143,7 +144,7 @@ def replay_history(rep, prop, c):
 
 
 # ---------------------------------------------------------------- survey-object histories (SurveyObject.tla)
-SO_CFG = 'CONSTANT Names = {"q0", "a", "g0"}\nCONSTANT MaxOps = %d\n'
+SO_CFG = 'CONSTANT Names = {"q0", "a", "g0"}\nCONSTANT MaxOps = %d\nCONSTANT WithRefs = FALSE\n'
 
 
 def _run_history(job):
@@ -174,13 +175,18 @@ def _run_history(job):
             (s if op == "add_root" else grp).add_child(q)
             trace.append({"op": op, "name": arg})
             continue
+        if op == "add_ref":
+            nref = sum(1 for e in trace if e["op"] == "add_ref") + 1
+            s.add_child(create_survey_element_from_dict({"type": "calculate", "name": f"r{nref}", "bind": {"calculate": "${" + arg + "} + 1"}}))
+            trace.append({"op": op, "name": arg})
+            continue
         if op == "mark":
             q0 = next(c for c in s.children if c.name == "q0")
             q0.bind["required"] = "yes"            # the caller edits the logic of one question through the object API
             trace.append({"op": "mark", "name": arg})
             continue
         ev = {"op": "render", "outcome": "ok", "required_on": [], "modes_agree": False, "unique_siblings": False, "binds_once": False, "controls_once": False, "closure": False,
-              "refs_resolve": False, "same_ids": False, "has_refs": False}
+              "refs_resolve": False, "same_ids": False, "has_refs": False, "ref_paths": []}
         try:
             x = s.to_xml(validate=False, pretty_print=False)
             root = project.parse(x)
@@ -195,6 +201,12 @@ def _run_history(job):
             binds = [b["nodeset"] for b in project.binds(root)]
             refs = [c["ref"] for c in project.body_preorder(root)]
             paths = {"/" + "/".join(p) for p in inst}
+            import re as _re
+            for b in project.binds(root):
+                nm = project.split_path(b["nodeset"])[-1]
+                if _re.fullmatch(r"r\d+", nm) and "calculate" in b["attrs"]:
+                    m = _re.match(r"\s*(/[\w/.\-]+)\s*\+ 1", b["attrs"]["calculate"])
+                    ev["ref_paths"].append(project.split_path(m.group(1))[1:] if m else ["?" + b["attrs"]["calculate"]])
             ev["required_on"] = [project.split_path(b["nodeset"])[1:] for b in project.binds(root) if "required" in b["attrs"]]
             ev.update(unique_siblings=len(inst) == len(set(inst)), binds_once=len(binds) == len(set(binds)), controls_once=len(refs) == len(set(refs)),
                       closure=all(b in paths for b in binds) and all(r in paths for r in refs))
@@ -220,17 +232,20 @@ def part_histories(rep, prop=None):
     prop = prop or PROP
 
     n = 5 if rep.tier == "quick" else 6
-    cfg = corpus._cfg("Gen_SurveyObject.cfg", "SPECIFICATION SOSpec\n" + SO_CFG % n + "INVARIANT AcceptedMeansUnambiguous\nCONSTRAINT Emit\nCHECK_DEADLOCK FALSE\n")
+    so_cfg = SO_CFG.replace("WithRefs = FALSE", "WithRefs = TRUE") if prop == "C03" else SO_CFG
+    cfg = corpus._cfg("Gen_SurveyObject.cfg", "SPECIFICATION SOSpec\n" + so_cfg % n + "INVARIANT AcceptedMeansUnambiguous\nINVARIANT AcceptedMeansReferencesResolve\nCONSTRAINT Emit\nCHECK_DEADLOCK FALSE\n")
     cases, r = tlc.generate("Gen_SurveyObject", cfg, tag="genso", timeout=900)
     rep.add_mc(r, f"SurveyObject: histories of <= {n} builder-API operations (add child to root/group, render) on one Survey object; AcceptedMeansUnambiguous")
     hists = [c for c in cases if sum(1 for h in c["hist"] if h[0] == "render") >= 1]
+    if prop == "C03":
+        hists = [c for c in hists if any(h[0] == "add_ref" for h in c["hist"])]
     hists = corpus.pick(hists, 1500 if rep.tier == "quick" else 20000, rep.seed)
     rep.bounds["survey_object_histories"] = {"max_ops": n, "replayed": len(hists)}
     outs = conv.map_cases(_run_history, [{"hist": h["hist"], "inspect": h.get("inspect", False), "translated": prop == "C07", "both_modes": prop == "C15"} for h in hists], chunksize=16)
     for o in outs:
         if o.get("status") == "harness_error":
             raise tlc.MachineryError(o["message"] + "\n" + o.get("tb", ""))
-    tcfg = corpus._cfg("Trace_SurveyObject.cfg", "SPECIFICATION TSpec\n" + SO_CFG % n + "CONSTRAINT Accepted\nCHECK_DEADLOCK FALSE\n")
+    tcfg = corpus._cfg("Trace_SurveyObject.cfg", "SPECIFICATION TSpec\n" + so_cfg % n + "CONSTRAINT Accepted\nCHECK_DEADLOCK FALSE\n")
     acc, info = tlc.validate_traces("Trace_SurveyObject", tcfg, [o["trace"] for o in outs], shards=6, env={"PROP": prop}, tag="trso")
     rep.traces_validated += len(acc)
     rep.extra.setdefault("trace_runs", []).append({"source": "Survey-object histories (render / mutate / render)", "traces": len(outs), "accepted": len(acc), "wall_s": round(info["wall"], 1)})
@@ -251,6 +266,11 @@ def part_histories(rep, prop=None):
         t2 = copy.deepcopy(b2["trace"])
         [e for e in t2 if e["op"] == "render" and e["outcome"] == "ok"][-1]["refs_resolve"] = False
         cans.append(t2)
+    if prop == "C03":
+        b5 = next(o for i, o in enumerate(outs) if i in acc and o["trace"][-1]["op"] == "render" and o["trace"][-1]["outcome"] == "ok" and o["trace"][-1]["ref_paths"])
+        t5 = copy.deepcopy(b5["trace"])
+        t5[-1]["ref_paths"][0] = ["grp"] + t5[-1]["ref_paths"][0]
+        cans.append(t5)
     if prop == "C15":
         b4 = next(o for i, o in enumerate(outs) if i in acc and sum(1 for e in o["trace"] if e["op"] == "render" and e["outcome"] == "ok") >= 2)
         t4 = copy.deepcopy(b4["trace"])
@@ -271,5 +291,7 @@ def part_histories(rep, prop=None):
         rep.extra["canaries_rejected"].append("dangling_itext_reference_after_a_second_render")
     if prop == "C05":
         rep.extra["canaries_rejected"].append("logic_attribute_leaked_to_another_bind")
+    if prop == "C03":
+        rep.extra["canaries_rejected"].append("reference_to_the_node_of_an_earlier_tree")
     if prop == "C15":
         rep.extra["canaries_rejected"].append("pretty_rendering_of_an_earlier_state")
